@@ -19,13 +19,13 @@ NA = {
 PENDING = "planned under contract-based verification (see DESIGN.md section 6) but the unit is not finished; not claimed until its obligations are discharged on every run"
 
 TEXT = {
- 'C01': ("Deductive proof (Verus/Z3), for all buffers and every Matcher satisfying the documented trait contract, that the line searcher's fast, slow and inverted paths deliver a line as a match only if the pattern selects it (precondition of Core::sink_matched) and drop no selected line (postconditions of find_by_line_fast / match_by_line_* / SliceByLine::run); unbounded in input length and iteration count. The trait contract itself is an assumption; for the real grep-regex matcher it is validated by a bounded native enumeration (patterns of up to 4 tokens, haystacks up to 5 bytes, plain/-i/-w/-x), never counted as proved.",
+ 'C01': ("Deductive proof (Verus/Z3), for all buffers and every Matcher satisfying the documented trait contract, that the line searcher's fast, slow and inverted paths deliver a line as a match only if the pattern selects it (precondition of Core::sink_matched) and drop no selected line (postconditions of find_by_line_fast / match_by_line_* / SliceByLine::run); unbounded in input length and iteration count. The trait contract itself is an assumption; for the real grep-regex matcher it is validated by a bounded native enumeration (pattern strings up to 4 tokens and regex ASTs up to 4 nodes, haystacks up to 3-5 bytes, plain/-i/-w/-x/-S), never counted as proved.",
          "contract-based deductive verification: Verus contracts spliced into the real functions of lines.rs/core.rs/glue.rs extracted from /repo on every run"),
  'C02': ("Deductive proof (Verus/Z3), for every read history and buffer capacity allowed by the line-buffer contract, that rolling and refilling preserve the searcher's representation invariant and offset/line-number bookkeeping (Core::roll, ReadByLine::fill/run), with the same per-buffer Core contracts discharged for the slice and reader strategies; strategy routing predicate multi_line_with_matcher proved against its spec. A bounded native enumeration (inputs up to 5 bytes, slow and fast line path, passthru, stop-on-nonmatch, reader chunks 1..2) compares reader and slice with a grep reference model; one listed known finding (byte count reported by the reader after an early stop).",
          "contract-based deductive verification (Verus) of Core::roll, ReadByLine::{fill,run}, SliceByLine::run, Searcher::multi_line_with_matcher; LineBuffer operations in unit linebuf"),
  'C03': ("Deductive proof (Verus/Z3) of the grep-model bookkeeping of the searcher for all inputs: delivery order/uniqueness as preconditions of every sink_* call, true byte offset and 1-based line number of every event (count_lines, roll rebasing), separator logic, context reach, byte count of a completed slice search; context is sunk only ahead of a line range that is delivered as a match (this obligation exposed the phantom before-context of the unreported match at EOF in multi-line mode, now repaired); line-location functions (locate, preceding, LineStep) proved against functional specs; line-buffer operations of the reader strategy are part of this check.",
          "contract-based deductive verification (Verus), functional specs for lines.rs, representation invariant + event coordinates for Core"),
- 'C13': ("Deductive proof (Verus/Z3) of the multi-line strategy for all inputs and every Matcher satisfying the trait contract: the next match is the leftmost match at or after the position over the WHOLE input (postcondition taken from the property; it exposed the sub-slice defect now fixed), advance, the merge rule for touching/overlapping line ranges, delivery of a pending range exactly when the next match's lines start after it, protocol and ordering; one listed known finding for inverted mode. A bounded native enumeration of the real strategy with the real grep-regex matcher (20 patterns, inputs up to 6/8 bytes) checks the property's statement end to end and supplies failing inputs.",
+ 'C13': ("Deductive proof (Verus/Z3) of the multi-line strategy for all inputs and every Matcher satisfying the trait contract: the next match is the leftmost match at or after the position over the WHOLE input (postcondition taken from the property; it exposed the sub-slice defect now fixed), advance, the merge rule for touching/overlapping line ranges, delivery of a pending range exactly when the next match's lines start after it, protocol and ordering; one listed known finding for inverted mode. A bounded native enumeration of the real strategy with the real grep-regex matcher (20 patterns, inputs up to 6/7 bytes, slice/reader/file strategies, passthru, a refusing sink) checks the property's statement end to end and supplies failing inputs.",
          "contract-based deductive verification (Verus) of MultiLine::{find,advance,sink,sink_matched_inverted,sink_matched,sink_context,run}"),
  'C14': ("Deductive proof (Verus/Z3) that, with binary detection on, the slice strategies never deliver a match or context range containing the quit byte and that the quit byte in an examined range always stops the caller (detect_binary, sink_* postconditions).",
          "contract-based deductive verification (Verus) of Core::detect_binary and the sink_* functions"),
